@@ -23,13 +23,13 @@ PYTHONPATH="$wt" timeout 900 /venv/bin/python -m pytest -q -p no:cacheprovider -
 run_demo; mut_rc=$?
 res=""
 # evidence files must come from runs against /repo itself: keep them out of reach of this run
-evbak=/tmp/evidence_bak_$$; cp -r /verif/evidence "$evbak"
+evbak=/tmp/evidence_bak_$$; V=${VERIF_DIR:-/verif}; cp -r $V/evidence "$evbak"
 for p in "$@"; do
-  out=$(cd /verif && CALGEBRA_REPO="$wt" ./check "$p" 2>&1 | grep -E "^VIOLATION|^KNOWN" | grep -c "^VIOLATION")
-  first=$(cd /verif && ls -t replays/${p}-*.json 2>/dev/null | head -1)
+  out=$(cd $V && CALGEBRA_REPO="$wt" ./check "$p" 2>&1 | grep -E "^VIOLATION|^KNOWN" | grep -c "^VIOLATION")
+  first=$(cd $V && ls -t replays/${p}-*.json 2>/dev/null | head -1)
   res="$res $p:violations=$out"
 done
-rm -rf /verif/evidence; mv "$evbak" /verif/evidence
-(cd /verif && ./check setup >/dev/null 2>&1)
+rm -rf $V/evidence; mv "$evbak" $V/evidence
+(cd $V && ./check setup >/dev/null 2>&1)
 echo "RESULT patch=$(basename $patch) suite_rc=$suite_rc($(tail -1 /tmp/suite_out_$$)) demo_clean_rc=$clean_rc demo_mutant_rc=$mut_rc checks:$res"
 rm -f /tmp/demo_out_$$ /tmp/suite_out_$$ /tmp/apply_err_$$
